@@ -363,3 +363,50 @@ add(Contract(
     params={'f': 'ref:Field', 'packet': 'ref:Packet', 'defaults': 'conf'},
     ensures=[], raises={'OtherException*': []},
     modifies=['slot(packet, in:owns(f, n))'], allocates=True))
+
+# ---------------------------------------------------------------- Bits (C07)
+# state established by Bits._compile for every member of a run (ghost_w: the declared width)
+define('BitsWF(self)',
+       "self.ghost_w >= 1 and self.shift >= 0"
+       " and self.mask == lshift(pow2(self.ghost_w) - 1, self.shift)"
+       " and IntCompiled(self.I) and self.I.is_bigendian and not self.I.is_signed"
+       " and self.I.field_name != self.field_name")
+
+add(Contract(
+    'field:Bits.unpack',
+    params={'self': 'ref:Bits', 'pkt': 'ref:Packet', 'raw': 'bytes', 'offset': 'int', 'k': 'kw'},
+    requires=["BitsWF(self)", "offset >= 0",
+              "implies(not self.iam_first, hasslot(pkt, self.I.field_name) and isint(slot(pkt, self.I.field_name)))"],
+    ensures=[
+        # the first member of a run reads the run's bytes as one big-endian unsigned integer (strictly: C04)
+        "implies(self.iam_first, offset + self.I.byte_count <= len(raw) and result == offset + self.I.byte_count"
+        "        and intval(slot(pkt, self.I.field_name)) == val(raw[offset:offset + self.I.byte_count], True, False))",
+        "implies(not self.iam_first, result == offset"
+        "        and same(slot(pkt, self.I.field_name), old(slot(pkt, self.I.field_name))))",
+        # every member gets (I & mask) >> shift - by lemma C07.unpack_slice exactly its own bit slice
+        "hasslot(pkt, self.field_name) and isint(slot(pkt, self.field_name))",
+        "intval(slot(pkt, self.field_name)) =="
+        " rshift(band(intval(slot(pkt, self.I.field_name)), self.mask), self.shift)",
+    ],
+    raises={'Exception': ["self.iam_first and offset + self.I.byte_count > len(raw)"]},
+    modifies=['slot(pkt, self.field_name)', 'slot(pkt, self.I.field_name)'], returns='int'))
+
+add(Contract(
+    'field:Bits.pack',
+    params={'self': 'ref:Bits', 'pkt': 'ref:Packet', 'fragments': 'ref:Fragments', 'k': 'kw'},
+    requires=["BitsWF(self)", "WF(fragments)", "fragments.current_offset >= 0",
+              "hasslot(pkt, self.field_name)",
+              "hasslot(pkt, self.I.field_name) and isint(slot(pkt, self.I.field_name))"],
+    ensures=[
+        "isint(old(slot(pkt, self.field_name)))",
+        # the shared integer is merged as ((v << shift) & mask) | (I & ~mask): by lemmas C07.pack_* the
+        # member's slice becomes v mod 2^w and every other slice is untouched, for ANY integer v
+        "isint(slot(pkt, self.I.field_name)) and intval(slot(pkt, self.I.field_name)) =="
+        " bor(band(lshift(intval(old(slot(pkt, self.field_name))), self.shift), self.mask),"
+        "     band(intval(old(slot(pkt, self.I.field_name))), bnot(self.mask)))",
+        # only the last member of the run emits the bytes, via the shared Int
+        "implies(not self.iam_last, unchanged(fragments) and result == fragments)",
+        "implies(self.iam_last, appended(fragments, intbytes(intval(slot(pkt, self.I.field_name)), self.I.byte_count, True, False)))",
+    ],
+    raises={'Exception': ["unchanged(fragments)"]},
+    modifies=['slot(pkt, self.I.field_name)'] + FRAG_MOD, returns='dyn'))
